@@ -12,7 +12,7 @@ func init() { register("C06", c06) }
 // automaton as the only reporting oracle.
 func c06(tier string) []*explore.Scenario {
 	return donors("C06", c01(tier), c02(tier), c11(tier), c07(tier), c03(tier), c04(tier), c09(tier), c14idle(tier), apiSeqs("C06", tier), handlerSeqs("C06", tier),
-		[]*explore.Scenario{expiredStream("C06", "none", 1), expiredStream("C06", "stop", 1)})
+		[]*explore.Scenario{expiredStream("C06", "none", 1), expiredStream("C06", "stop", 1)}, c14AfterCancelAll())
 }
 
 // the idle-fixpoint scenarios of C14 (not its long history)
@@ -22,6 +22,15 @@ func c14idle(tier string) []*explore.Scenario {
 		if !sc.Once && strings.Contains(sc.Name, "idle-fixpoint") {
 			out = append(out, sc) // (not the batches, which run without a wire tap, nor C14's copies of the operation-sequence families)
 		}
+	}
+	return out
+}
+
+// handlers that go on using their stream (headers, messages, trailers) after their context has ended
+func c14AfterCancelAll() []*explore.Scenario {
+	var out []*explore.Scenario
+	for _, ops := range []string{"h", "H", "s", "t", "hs", "Hs", "sh", "ts", "hh", "hts"} {
+		out = append(out, c14AfterCancel(ops, 1))
 	}
 	return out
 }
